@@ -36,6 +36,8 @@ func c19Values(now time.Time) []c19Val {
 		{"date 2h ago", dt(old), []int{old}},
 		{"date 30min ago", dt(mid), []int{mid}},
 		{"date in 2h", dt(fut), []int{fut}},
+		{"date 45 days ago", dt(45 * 24 * 60), []int{45 * 24 * 60}},
+		{"date 90 days ago", dt(90 * 24 * 60), []int{90 * 24 * 60}},
 		{"int64 millis of an old date", int64(dt(old)), nil},
 		{"string of an old date", now.Add(-2 * time.Hour).Format(time.RFC3339), nil},
 		{"old timestamp", primitive.Timestamp{T: uint32(now.Add(-2 * time.Hour).Unix()), I: 1}, nil},
@@ -169,8 +171,15 @@ func init() {
 		r := c.R
 		now := time.Now()
 		vals := c19Values(now)
-		missing := vals[7]
-		ttlSets := [][]c19Index{{}, {{"t", 0}}, {{"t", 3600}}, {{"u", 3600}}, {{"t", 0}, {"u", 3600}}, {{"t", 3600}, {"u", 3600}}, {{"t", 3600}, {"u", 0}}}
+		var missing c19Val
+		for _, v := range vals {
+			if v.name == "missing" {
+				missing = v
+			}
+		}
+		ttlSets := [][]c19Index{{}, {{"t", 0}}, {{"t", 3600}}, {{"u", 3600}}, {{"t", 0}, {"u", 3600}}, {{"t", 3600}, {"u", 3600}}, {{"t", 3600}, {"u", 0}},
+			// intervals of 30 and 60 days (more than 2^31 milliseconds)
+			{{"t", 30 * 86400}}, {{"t", 60 * 86400}, {"u", 30 * 86400}}}
 		var docSets [][]c19Doc
 		// one document: every (t,u) pair
 		for _, t := range vals {
@@ -190,9 +199,9 @@ func init() {
 			}
 		}
 		if c.Quick() {
-			for _, a := range vals[:6] {
-				for _, b := range vals[:6] {
-					for _, cc := range vals[6:] {
+			for _, a := range vals[:8] {
+				for _, b := range vals[:8] {
+					for _, cc := range vals[8:] {
 						docSets = append(docSets, []c19Doc{{1, a, missing}, {2, cc, missing}, {3, b, cc}})
 					}
 				}
